@@ -152,16 +152,39 @@ def run(repo: Repo, rep: Report, tier: str) -> None:
 
     ev = _fl13(repo.func("visit.endpoint.endpoint_visitor:EndpointVisitor.generate_endpoint_protocol"))
     IR_ATTRS = {"responses", "stream", "is_streaming", "content", "return_type", "stream_format"}
-    for fn in (ev, tm):
-        FL = Locals(fn.node)
-        tests = [n for n in own_nodes(fn.node) if isinstance(n, ast.Compare) and len(n.ops) == 1 and isinstance(n.ops[0], ast.In) and const_str(n.left) == "AsyncIterator"]
+    def _closure(fn0: Function) -> List[Function]:
+        """fn0 plus the helpers of its own class / module it calls (transitively, bounded): the decision may live in an extracted helper."""
+        out, todo = [fn0], [fn0]
+        while todo and len(out) < 12:
+            f = todo.pop()
+            for c in calls_in(f.node):
+                nm = c.func.attr if isinstance(c.func, ast.Attribute) and isinstance(c.func.value, ast.Name) else c.func.id if isinstance(c.func, ast.Name) else None
+                if nm is None:
+                    continue
+                cls = f.qualname.rsplit(".", 1)[0] if "." in f.qualname else None
+                h = f.module.functions.get(f"{cls}.{nm}") if cls else None
+                h = h or f.module.functions.get(nm)
+                if h is not None and all(h is not x for x in out):
+                    out.append(h)
+                    todo.append(h)
+        return out
+
+    def _sniffs(fn0: Function):
+        return [(f, n) for f in _closure(fn0) for n in own_nodes(f.node)
+                if isinstance(n, ast.Compare) and len(n.ops) == 1 and isinstance(n.ops[0], ast.In) and const_str(n.left) == "AsyncIterator"]
+
+    for fn0 in (ev, tm):
+        found = _sniffs(fn0)
+        fn = fn0
+        tests = [t for _, t in found]
         sub = f"{fn.module.relpath}:{fn.qualname} coroutine / async-generator decision"
         if not tests:
             rep.violation("R13.5", sub, f"{fn.fq}|nature|not-from-signature",
                           "coroutine vs async-generator nature is decided from something other than the rendered signature: the mock/Protocol can be an "
                           "async generator while the client method is a coroutine (awaiting the mock raises TypeError)", fn.loc())
             continue
-        for t in tests:
+        for hf, t in found:
+            FL = Locals(hf.node)
             src = FL.inline(t.comparators[0], stop=tuple(FL.params))
             from_ir = sorted({x.attr for x in ast.walk(src) if isinstance(x, ast.Attribute) and x.attr in IR_ATTRS})
             if not from_ir:
@@ -177,9 +200,9 @@ def run(repo: Repo, rep: Report, tier: str) -> None:
     from sa.match import truthiness as _truth
 
     one_line = []
-    for fn in (ev, tm):
-        FL = Locals(fn.node)
-        for t in (n for n in own_nodes(fn.node) if isinstance(n, ast.Compare) and len(n.ops) == 1 and isinstance(n.ops[0], ast.In) and const_str(n.left) == "AsyncIterator"):
+    for fn0 in (ev, tm):
+        for fn, t in _sniffs(fn0):
+            FL = Locals(fn.node)
             def _shape(e: ast.AST, depth: int = 0) -> str:
                 """'element' (one entry of a sequence of lines), 'joined' (several lines glued together) or 'other'."""
                 e = FL.inline(e, stop=tuple(FL.params))
